@@ -14,6 +14,12 @@ def main():
 
     def _timeout(signum, frame):
         print(f'HARNESS-ERROR: {a.pid} {tier} did not finish within its time budget (a worker may be stuck in a non-terminating solve)', file=sys.stderr)
+        import multiprocessing
+        for ch in multiprocessing.active_children():
+            try:
+                ch.kill()
+            except Exception:
+                pass
         os._exit(3)
     signal.signal(signal.SIGALRM, _timeout)
     signal.alarm(int(os.environ.get('HV_TIMEOUT', 3000 if tier == 'quick' else 8 * 3600)))
